@@ -2,6 +2,8 @@ import Driver.Drv.Ban
 import Driver.Drv.BlockMgr
 import Driver.Drv.CFHeaders
 import Driver.Drv.Dispatcher
+import Driver.Drv.GetBlock
+import Driver.Drv.GetCFilter
 import Driver.Drv.Import
 import Driver.Drv.Lru
 import Driver.Drv.PushTx
@@ -14,6 +16,8 @@ def drivers : List (String × CaseFn) := [
   ("blockmgr", Driver.Drv.BlockMgr.runCase),
   ("cfheaders", Driver.Drv.CFHeaders.runCase),
   ("dispatcher", Driver.Drv.Dispatcher.runCase),
+  ("getblock", Driver.Drv.GetBlock.runCase),
+  ("getcfilter", Driver.Drv.GetCFilter.runCase),
   ("import", Driver.Drv.Import.runCase),
   ("lru", Driver.Drv.Lru.runCase),
   ("pushtx", Driver.Drv.PushTx.runCase),
